@@ -767,6 +767,15 @@ func (s *muxerStream) rotateSegments(
 	nextNTP time.Time,
 	force bool,
 ) error {
+	// regenerate init files only if missing or codec parameters have changed.
+	// this can fail and is done before touching the state of the stream.
+	if s.variant != MuxerVariantMPEGTS && (!s.initFilePresent || s.nextSegment.isFromForcedRotation()) {
+		err := s.generateAndCacheInitFile()
+		if err != nil {
+			return err
+		}
+	}
+
 	if s.variant != MuxerVariantMPEGTS {
 		err := s.rotateParts(nextDTS, false)
 		if err != nil {
@@ -838,14 +847,6 @@ func (s *muxerStream) rotateSegments(
 		s.segments = s.segments[1:]
 
 		s.segmentDeleteCount++
-	}
-
-	// regenerate init files only if missing or codec parameters have changed
-	if s.variant != MuxerVariantMPEGTS && (!s.initFilePresent || segment.isFromForcedRotation()) {
-		err = s.generateAndCacheInitFile()
-		if err != nil {
-			return err
-		}
 	}
 
 	if s.variant == MuxerVariantMPEGTS { //nolint:dupl
